@@ -56,6 +56,7 @@ const Prelude = `(set-option :produce-models true)
 (assert (forall ((s Str)) (! (and (hasPrefix s s) (= (strafter s s) emptyStr)) :pattern ((strafter s s)))))
 (assert (forall ((a Str) (b Str)) (! (= (strsub (strcat a b) (len a) (+ (len a) (len b))) b) :pattern ((strcat a b)))))
 (assert (forall ((s Str)) (! (= (strsub s 0 (len s)) s) :pattern ((strsub s 0 (len s))))))
+(assert (forall ((s Str) (a Int) (b Int) (c Int)) (! (=> (and (<= 0 a) (<= a b) (<= b c) (<= c (len s))) (= (strcat (strsub s a b) (strsub s b c)) (strsub s a c))) :pattern ((strcat (strsub s a b) (strsub s b c))))))
 ; ---- slices ---------------------------------------------------------------------
 (declare-datatypes ((Slice 0)) (((mkslice (sbase Int) (soff Int) (slen Int) (scap Int)))))
 (define-fun nilSlice () Slice (mkslice 0 0 0 0))
